@@ -60,10 +60,27 @@ def handleCfg (l : Line) : IO Unit := do
   IO.println s!"obs {l.id} maps={",".intercalate o}"
   IO.println s!"spec {l.id} maps={",".intercalate p}"
 
+/-- `kind=reuse`: a long-lived projection and filter on a sub-name key over one Result whose name is
+overwritten in place. obs: the model extractor per step; spec: the specification's value per step and
+whether it equals the first step's value (what the filter built from the first value must answer). -/
+def handleReuse (l : Line) : IO Unit := do
+  let key := (l.bytes? "key").getD []
+  let names := (l.hexList? "names").getD []
+  let mv := names.map fun n => match Proc.Extract.extract key { name := n, config := [] } with
+    | .ok b => b.toHex
+    | .error _ => "!err"
+  IO.println s!"obs {l.id} rv={",".intercalate mv}"
+  let sv := names.map fun n => specVal n [] key
+  let fm := String.join (sv.map fun v => if some v == sv.head? then "1" else "0")
+  IO.println s!"spec {l.id} rv={",".intercalate sv} fm={fm}"
+
 def handle (l : Line) : IO Unit := do
   if l.kind != "case" then return
   if l.getD "kind" == "cfg" then
     handleCfg l
+    return
+  if l.getD "kind" == "reuse" then
+    handleReuse l
     return
   let name := (l.bytes? "name").getD []
   let cfg := parseCfg (l.getD "cfg" "-")
